@@ -10,15 +10,17 @@ open Desper
 
 /-! ### `populate` never fails on a well-formed description -/
 
-theorem construct_isCls {d : Item} (h : isCls d = true) : construct d = .ok (toInst d) := by
+theorem construct_isCls {U : Universe} {d : Item} (h : isCls d = true ∧ U.ctorRaises d.label = false) :
+    construct U d = .ok (toInst d) := by
+  obtain ⟨h, hr⟩ := h
   unfold isCls at h
   unfold construct toInst clsOf
   split at h
-  · rename_i c hc; simp [hc]
+  · rename_i c hc; simp [hc, hr]
   · cases h
 
 theorem populateProcs_ok (U : Universe) (w : World) (ds : List Item)
-    (h : ∀ d ∈ ds, isCls d = true ∧ isProc U (clsOf d) = true) :
+    (h : ∀ d ∈ ds, (isCls d = true ∧ U.ctorRaises d.label = false) ∧ isProc U (clsOf d) = true) :
     populateProcs U w ds = .ok ((ds.map toInst).foldl (addProcessor U) w) := by
   induction ds generalizing w with
   | nil => rfl
@@ -31,13 +33,13 @@ theorem populateProcs_ok (U : Universe) (w : World) (ds : List Item)
     rfl
 
 theorem populateEnts_ok (U : Universe) (w : World) (es : List (Option EntId × List Item))
-    (h : ∀ e ∈ es, ∀ d ∈ e.2, isCls d = true) :
+    (h : ∀ e ∈ es, ∀ d ∈ e.2, isCls d = true ∧ U.ctorRaises d.label = false) :
     populateEnts U w es = .ok (es.foldl (entStep U) w) := by
   induction es generalizing w with
   | nil => rfl
   | cons e es ih =>
     obtain ⟨eid, cs⟩ := e
-    have hcs : mapE construct cs = .ok (cs.map toInst) :=
+    have hcs : mapE (construct U) cs = .ok (cs.map toInst) :=
       mapE_ok_of_forall (fun d hd => construct_isCls (h _ (List.mem_cons_self ..) d hd))
     simp only [populateEnts, hcs]
     rw [ih _ (fun x hx => h x (List.mem_cons_of_mem _ hx))]
